@@ -5,6 +5,7 @@ import Exetera.Lemmas.GenKernelsJoinInnerLU
 import Exetera.Lemmas.GenKernelsJoinInnerG
 import Exetera.Lemmas.GenKernelsJoinOld
 import Exetera.Lemmas.GenKernelsMapOld
+import Exetera.Lemmas.GenKernelsChunks
 /-!
   C19 over the TRANSLATED flat left-map kernels (`Gen/Kernels.lean`, regenerated from operations.py by tools/translate_njit.py on
   every run): `generate_ordered_map_to_left_both_unique`, `generate_ordered_map_to_left_right_unique`,
@@ -202,5 +203,45 @@ example : partialOldMap 2 [30, 40, 50] [2, -1, 4, 4, 7] (-1) (0 : Int) 6 = .ok (
 example : DWin [10, 20, 30, 40, 50, 60, 70, 80] 2 [30, 40, 50] := ⟨by decide, fun k hk => by
   rcases k with _ | _ | _ | k <;> simp at hk ⊢
   omega⟩
+
+end Exetera.Props.C19Gen
+
+/-! ## KT4C — the generator `chunks(length, chunksize)` the legacy streamed drivers iterate over
+
+  A generator is translated as the function returning the lists of the values it yields until exhaustion (starts, ends).
+  `GenK.chunkList` iterates the hand model `JoinOld.nextRange` (`next(it)`), which the driver models of C19 call. -/
+namespace Exetera.Props.C19Gen
+open Exetera Exetera.JoinOld Exetera.GenK Exetera.Gen.Kernels
+
+/-- for every length and every `chunksize ≥ 1` the translated generator is exhausted within `length` iterations and yields exactly
+    the ranges obtained by iterating the hand model `nextRange` from 0 -/
+theorem gen_chunks_eq (len cs : Nat) (hcs : 1 ≤ cs) (fuel : Nat) (hf : len ≤ fuel) :
+    chunks.run (len : Int) (cs : Int) fuel
+      = .ok ((chunksOf len cs).map (fun p => (p.1 : Int)), (chunksOf len cs).map (fun p => (p.2 : Int))) :=
+  chunks_run_eq len cs hcs fuel hf
+
+/-- a length that is not positive yields nothing (any chunk size, any fuel) -/
+theorem gen_chunks_empty (len cs : Int) (hlen : len ≤ 0) (fuel : Nat) : chunks.run len cs fuel = .ok ([], []) :=
+  chunks_run_empty len cs hlen fuel
+
+/-- **the yielded ranges partition `[0, length)`**: read one after the other they enumerate the rows `0, …, length - 1` exactly
+    once and in order, and every range is non-empty, at most `chunksize` long and inside the column -/
+theorem gen_chunks_partition (len cs : Nat) (hcs : 1 ≤ cs) :
+    (chunksOf len cs).flatMap (fun p => List.range' p.1 (p.2 - p.1)) = List.range len ∧
+      ∀ p ∈ chunksOf len cs, p.1 < p.2 ∧ p.2 ≤ p.1 + cs ∧ p.2 ≤ len := by
+  refine ⟨?_, fun p hp => (chunkList_bounds len cs hcs len 0 p hp).2⟩
+  rw [chunksOf, chunkList_partition len cs hcs len 0 (Nat.zero_le _) (by omega), List.range_eq_range']
+  rfl
+
+/-- the first range is what the drivers' `next(it, (0, 0))` returns, and each further one is `nextRange` at the previous end -/
+example (len cs n cur : Nat) :
+    chunkList len cs (n + 1) cur
+      = match nextRange cur len cs with
+        | none => []
+        | some (a, b) => (a, b) :: chunkList len cs n b := rfl
+
+example : chunks.run 10 4 10 = .ok ([0, 4, 8], [4, 8, 10]) := rfl
+example : chunksOf 10 4 = [(0, 4), (4, 8), (8, 10)] := by decide
+example : chunks.run 3 0 50 = .error .outOfFuel := rfl      -- chunksize 0 never advances: the generator does not end
 
 end Exetera.Props.C19Gen
